@@ -5,6 +5,7 @@ import (
 	"fmt"
 	"os"
 	"sync"
+	"sync/atomic"
 	"time"
 
 	"github.com/ErdemOzgen/blackdagger/internal/dag"
@@ -109,6 +110,12 @@ func (sc *Scheduler) Schedule(ctx context.Context, g *ExecutionGraph, done chan 
 
 	var wg = sync.WaitGroup{}
 
+	// active is the number of step goroutines that have not ended yet: what
+	// maxActiveRuns limits. (The node status cannot be used for this: a
+	// repeating step that goes on after a failed iteration, for one, is
+	// executing while its node is labelled failed.)
+	var active atomic.Int32
+
 	var cancel context.CancelFunc
 	if sc.timeout > 0 {
 		ctx, cancel = context.WithTimeout(ctx, sc.timeout)
@@ -130,7 +137,7 @@ func (sc *Scheduler) Schedule(ctx context.Context, g *ExecutionGraph, done chan 
 				break NodesIteration
 			}
 			verifPoint("loop.launch", node)
-			if sc.maxActiveRuns > 0 && sc.runningCount(g) >= sc.maxActiveRuns {
+			if sc.maxActiveRuns > 0 && int(active.Load()) >= sc.maxActiveRuns {
 				continue NodesIteration
 			}
 			// Check preconditions
@@ -144,6 +151,7 @@ func (sc *Scheduler) Schedule(ctx context.Context, g *ExecutionGraph, done chan 
 				}
 			}
 			wg.Add(1)
+			active.Add(1)
 
 			sc.logger.Info("Step execution started", "step", node.data.Step.Name)
 			node.setStatus(NodeStatusRunning)
@@ -151,6 +159,7 @@ func (sc *Scheduler) Schedule(ctx context.Context, g *ExecutionGraph, done chan 
 				defer verifPoint("worker.exit", node)
 				defer func() {
 					node.finish()
+					active.Add(-1)
 					wg.Done()
 				}()
 
@@ -512,16 +521,6 @@ func (sc *Scheduler) setCanceled() {
 	sc.mu.Lock()
 	defer sc.mu.Unlock()
 	sc.canceled = 1
-}
-
-func (*Scheduler) runningCount(g *ExecutionGraph) int {
-	count := 0
-	for _, node := range g.Nodes() {
-		if node.State().Status == NodeStatusRunning {
-			count++
-		}
-	}
-	return count
 }
 
 func (*Scheduler) isFinished(g *ExecutionGraph) bool {
